@@ -22,6 +22,7 @@ Stutter == UNCHANGED <<vars, idx>>
 ObsLoadOK == Line.load = "ok"
 \* the property on the address strings themselves
 ObsNoRepeatAddr == \A i, j \in 1..Len(Line.addrs) : i # j => Line.addrs[i] # Line.addrs[j]
-\* every request the specification does not expect to fail was answered (failed = unexpected failures)
+\* every request the specification does not expect to fail was answered (failed = unexpected failures). Not part of C62 (the wallet may refuse
+\* more often than the specification without ever repeating an address): reported in the evidence, not checked as an invariant
 ObsAllAnswered == Line.load = "ok" => Line.failed = 0
 ====
